@@ -526,6 +526,12 @@ impl<M: Manager, W: From<Object<M>>> Pool<M, W> {
      * always reports a `max_size` of 0 for closed pools.
      */
     pub fn resize(&self, max_size: usize) {
+        self.resize_impl(max_size, false)
+    }
+
+    /// Resizes the pool and optionally closes it in the same critical
+    /// section so that no other `resize` can slip in between.
+    fn resize_impl(&self, max_size: usize, close: bool) {
         #[cfg(deadpool_verif)]
         verif::point("managed.resize.enter");
         if self.inner.semaphore.is_closed() {
@@ -538,6 +544,10 @@ impl<M: Manager, W: From<Object<M>>> Pool<M, W> {
             verif::is_locked(&self.inner.slots)
         });
         let mut slots = self.inner.slots.lock().unwrap();
+        // The pool might have been closed while waiting for the lock.
+        if self.inner.semaphore.is_closed() {
+            return;
+        }
         let old_max_size = slots.max_size;
         slots.max_size = max_size;
         // shrink pool
@@ -581,6 +591,9 @@ impl<M: Manager, W: From<Object<M>>> Pool<M, W> {
             let settled = additional.min(slots.debt);
             slots.debt -= settled;
             self.inner.semaphore.add_permits(additional - settled);
+        }
+        if close {
+            self.inner.semaphore.close();
         }
     }
 
@@ -653,10 +666,7 @@ impl<M: Manager, W: From<Object<M>>> Pool<M, W> {
     ///
     /// This operation resizes the pool to 0.
     pub fn close(&self) {
-        self.resize(0);
-        #[cfg(deadpool_verif)]
-        verif::point("managed.close.pre_sem_close");
-        self.inner.semaphore.close();
+        self.resize_impl(0, true);
     }
 
     /// Indicates whether this [`Pool`] has been closed.
